@@ -90,3 +90,18 @@ Proof.
   induction k; [reflexivity|]. cbn [be_enc]. rewrite Z.div_0_l, Z.mod_0_l, IHk by lia.
   unfold zeros. change [0] with (repeat 0 1). rewrite <- repeat_app. f_equal. lia.
 Qed.
+
+Lemma okP_firstn k bs : bytes_okP bs -> bytes_okP (firstn k bs).
+Proof. revert bs. induction k; intros bs H; [constructor|]. destruct bs; [constructor|]. inversion H; subst. simpl. constructor; auto. apply IHk; assumption. Qed.
+Lemma okP_skipn k bs : bytes_okP bs -> bytes_okP (skipn k bs).
+Proof. revert bs. induction k; intros bs H; [exact H|]. destruct bs; [constructor|]. inversion H; subst. simpl. apply IHk; assumption. Qed.
+Lemma okP_app a b : bytes_okP a -> bytes_okP b -> bytes_okP (a ++ b).
+Proof. intros. apply Forall_app; auto. Qed.
+Lemma firstn_app_len {A} (a b : list A) : firstn (length a) (a ++ b) = a.
+Proof. rewrite firstn_app, Nat.sub_diag, firstn_O, app_nil_r. apply firstn_all. Qed.
+Lemma skipn_app_len {A} (a b : list A) : skipn (length a) (a ++ b) = b.
+Proof. rewrite skipn_app, Nat.sub_diag, skipn_all, skipn_O. reflexivity. Qed.
+Lemma firstn_be_enc k x (y : bytes) : firstn k (be_enc k x ++ y) = be_enc k x.
+Proof. rewrite <- (be_enc_length k x) at 1. apply firstn_app_len. Qed.
+Lemma skipn_be_enc k x (y : bytes) : skipn k (be_enc k x ++ y) = y.
+Proof. rewrite <- (be_enc_length k x) at 1. apply skipn_app_len. Qed.
